@@ -902,6 +902,8 @@ fn run_case(gen: &str, index: u64, seed: u64, tier: Tier, rep: &mut Report) {
             check_string(&s, 0, n_random.min(10), &mut rng, rep);
         }
         "regression_seeds" => {
+            // all chunkings up to this length (hundreds of thousands of runs natively: sampled under Miri)
+            let reg_all = if tier == Tier::Lite { 4 } else { 12 };
             // inputs from DESIGN.md §5 (design-time probes)
             for s in [
                 vec![0x07, 0x03, 0x04, 0x01, 0x00],
@@ -911,7 +913,7 @@ fn run_case(gen: &str, index: u64, seed: u64, tier: Tier, rep: &mut Report) {
                 vec![0x0d, 0x02, 0x04, 0x04],
                 vec![0x05, 0x00],
             ] {
-                check_string(&s, 12, 8, &mut rng, rep);
+                check_string(&s, reg_all, 8, &mut rng, rep);
             }
             // declared lengths at the top of the varint range (the payload can never be complete):
             // nothing, one byte or a few bytes of payload, then the end of the stream or silence
@@ -920,10 +922,10 @@ fn run_case(gen: &str, index: u64, seed: u64, tier: Tier, rep: &mut Report) {
                     for tail in [&b""[..], b"\x00", b"abc"] {
                         let mut s = rf::frame_forms(ty, rv::size(ty), len, 8, &[]).expect("forms fit");
                         s.extend_from_slice(tail);
-                        check_string(&s, 12, 6, &mut rng, rep);
+                        check_string(&s, reg_all, 6, &mut rng, rep);
                         let mut t = rf::frame(rf::T_DATA, b"xy");
                         t.extend(&s);
-                        check_string(&t, 9, 6, &mut rng, rep);
+                        check_string(&t, reg_all.min(9), 6, &mut rng, rep);
                         rep.count("huge_declared_length_strings");
                     }
                 }
